@@ -31,8 +31,13 @@ CHECKS.update({
         "design_ref": "DESIGN.md 2/C19",
     },
 })
+CHECKS["C20"] = {
+    "text": "Modular decision of affine_between's soundness: (1) the verifier _try_affine (with _affine_friendly, _apply_affine, _affine_callback, almost_equals) is executed symbolically for an ARBITRARY affine R and arbitrary coordinates of both shapes over every skeleton M+k letters (k<=2, 18 letters; k=3 sub-alphabet thorough): acceptance implies that R, applied independently to s1 as read by an independent path interpreter, reproduces s2 within tol, command for command (SMT validity, linear abstraction over monomials + NRA portfolio); (2) _round returns its argument or a matrix the verifier accepted; (3) every return of affine_between is dominated by its verifier (decided on the AST of the loaded source); (4) almost_equals decides exactly per-argument closeness; (5) whole-function runs for the completeness clauses: identical shapes give the identity, exactly translated copies are always matched.",
+    "note": "whole-function symbolic exploration of the heuristic search is out of reach (NRA with atan2/sin/cos at every branch: probe in DESIGN); soundness does not depend on the heuristics, only on the verifier, which is what is decided. Arc radii under R outside; floats as reals; snap band assumed empty; tol>=1e-6 for the completeness clauses.",
+    "design_ref": "DESIGN.md 2/C20",
+}
 NOT_APPLICABLE = {
     "C17": "termination/time-bound over cyclic reference graphs and libxml2 entity loading: no numeric or byte-level input to make symbolic, non-termination is not an assertion a bounded symbolic path can refute (budget exhausted = inconclusive); enumerating reference graphs under a watchdog would be a different technique family (DESIGN.md section 3)",
 }
-for _p in ["C01","C02","C03","C04","C05","C06","C07","C08","C10","C12","C14","C15","C16","C20"]:
+for _p in ["C01","C02","C03","C04","C05","C06","C07","C08","C10","C12","C14","C15","C16"]:
     NOT_APPLICABLE.setdefault(_p, PENDING)
